@@ -209,6 +209,13 @@ def run(ctx):
     (ctx.bad if probs else ctx.ok)("X-LPM", "X-LPM:ArpRouter::demux", dm.span, "; ".join(probs) if probs else
         "next hop and interface come from get_recipient(header.destination); no route => early return; task sends on that interface to the resolved MAC")
     x_resolved(ctx, prog, task)
+    # the decremented copy survives re-serialisation: serialize() hands the header's own TTL (and addresses, length,
+    # fragment fields) to the encoder - a fresh default TTL would make every hop forward with a full time-to-live
+    from . import c08
+    sp = c08.ipv4_serialize_problems(ctx, prog)
+    ser = prog.method("Ipv4Header", "serialize")
+    (ctx.bad if sp else ctx.ok)("X-TTL", "X-TTL:Ipv4Header::serialize", ser.span, "; ".join(sp[:2]) + (": the datagram leaves the router with a time-to-live that is not the decremented one" if any("time_to_live" in x for x in sp) else "") if sp else
+        "serialize() re-encodes the header's own time_to_live and every other field")
     run_panics(ctx)
 
 
